@@ -100,7 +100,7 @@ func ruleTBLock(r *core.Reporter) {
 			}
 		})
 	}
-	if r.Floor("limiter field accesses", n, 25) && bad == 0 {
+	if r.Floor("limiter field accesses", n, 12) && bad == 0 {
 		var ch []string
 		for f := range callerHolds {
 			ch = append(ch, f.Name())
@@ -230,7 +230,7 @@ func isFloorExpr(v ssa.Value) bool {
 func ruleTBRate(r *core.Reporter) {
 	p := r.P
 	sts := storesTo(p, tBucket, "refillRate")
-	if !r.Floor("stores to refillRate", len(sts), 3) {
+	if !r.Floor("stores to refillRate", len(sts), 2) {
 		return
 	}
 	for _, st := range sts {
@@ -306,7 +306,7 @@ func isFresh(addr ssa.Value) bool {
 func ruleTBTokens(r *core.Reporter) {
 	p := r.P
 	sts := storesTo(p, tBucket, "tokens")
-	if !r.Floor("stores to tokens", len(sts), 4) {
+	if !r.Floor("stores to tokens", len(sts), 2) {
 		return
 	}
 	for _, st := range sts {
